@@ -205,6 +205,30 @@ def _sym_range(*a):
     return gen()
 
 
+def _modinv_contract(a, n):
+    """builtin pow(a, -1, n) on exact symbolic integers (Python >= 3.8): the v in [0, n) with a*v == 1 (mod n); ValueError when a
+    is not invertible.  Invertibility is decided for a == 0 (mod n) (not invertible) and assumed otherwise -- sound for prime n, the
+    only moduli this code base inverts by; the assumption is checked for satisfiability on the path, else the call is Unsupported."""
+    import z3
+    ctx = core.cur()
+    a, n = SymZ.lift(a), SymZ.lift(n)
+    if a is None or n is None:
+        raise Unsupported("pow(a, -1, n) on %r, %r" % (a, n))
+    am = a % n
+    if ctx.branch(am.t == am._c(0)):
+        raise ValueError("base is not invertible for the given modulus")
+    v = SymZ.var(ctx.fresh_name("modinv"), 0, None, assume_bounds=False)
+    bv = isinstance(ctx.backend, tuple)
+    fact = z3.And(v.t >= 0, v.t < n.t, ((am * v) % n).t == v._c(1)) if not bv else z3.And(v.t >= 0, v.t < n.t, ((am * v) % n).t == v._c(1))
+    r, _ = ctx.satisfiable([fact], timeout_ms=20000)
+    if r != "sat":
+        raise Unsupported("pow(a, -1, n): invertibility of a modulo n not established on this path")
+    ctx.add_fact(fact)
+    if not bv:
+        v.lo, v.hi = 0, n.hi - 1 if n.hi is not None else None
+    return v
+
+
 def pow_shim(b, e, m=None):
     if is_shadow(b) or is_shadow(e) or is_shadow(m):
         hook = getattr(core.cur(), "pow_hook", None) if core.active() else None
@@ -217,6 +241,8 @@ def pow_shim(b, e, m=None):
         if isinstance(b, SymZ) or isinstance(b, builtins.int):
             if isinstance(e, builtins.int) and 0 <= e <= 64:
                 return SymZ.lift(b).__pow__(e, m)
+            if isinstance(e, builtins.int) and e == -1:
+                return _modinv_contract(b, m)
             raise Unsupported("modular exponentiation with %d-bit exponent on an exact integer (no contract installed)"
                               % (e.bit_length() if isinstance(e, builtins.int) else -1))
         return b.__pow__(e, m)
